@@ -20,6 +20,41 @@ CLAIMED = {
             'Only the half-precision clause is decided so far; other codecs pending. struct model assumes little-endian host.', '5 C13'),
 }
 
+CLAIMED.update({
+    'C04': ('proof', 'Real Crazyflie/Param/_ParamUpdater objects driven through histories: set_value encoding proved for all values of the 10 '
+            'numeric types (V1/V2), refusal and range-error paths, one-request-on-the-wire discipline with release only by the own reply, '
+            'cache/get_value/callbacks after replies, attribution of misc replies with three requests outstanding.',
+            'Sequential model of queue.Queue / Lock (thread interleavings of callers not explored); histories are bounded (three requests); '
+            'one recorded known finding (stale READ reply answering a WRITE).', '5 C04'),
+    'C06': ('proof', 'Histories of real Memory.read/write calls against a device model in the contract, for symbolic addresses, ids and '
+            'contents: exact data, one notification, protocol limits, duplicated/stale/error replies, link drop, re-entrant callbacks, '
+            'queued writes in order, nothing left behind.',
+            'Transfer lengths are enumerated around the 20/25-byte chunk boundaries (bounded, stated per contract); peer model assumed; '
+            'duplicated ack carrying the start address of the next queued write is indistinguishable (protocol).', '5 C06'),
+    'C07': ('proof', 'The real dispatcher loop is run on scripted packets: match predicate proved for all 256 headers and all registrations; '
+            'snapshot delivery order under every combination of add/remove/raise actions of three callbacks; removal; Caller.call.',
+            'Registrations from other threads during dispatch not covered; callbacks raise only Exception subclasses; three registrations (bounded).', '5 C07'),
+    'C10': ('proof', 'send_packet timer/transmit rules, retry while pending, no retransmission after the answer, longest-prefix cancellation, '
+            'close/reopen histories (old-session timers transmit nothing) on a real Crazyflie with a recording Timer.',
+            'Real-time clause (retransmitted at the timeout interval) and timer/reply races are not decidable here; Timer fires at most once.', '5 C10'),
+    'C11': ('proof', 'Encoder/decoder field identity, fetch/insert file discipline on a modelled file system (symbolic checksums), truncated / '
+            'damaged / foreign-version files are misses, read-only directory never written, fetcher uses the cache only under the announced CRC.',
+            'json/open/glob/os dependency contracts D1-D6 stated in contracts/C11.py (sampled natively on every path); tables of <= 2 entries; '
+            'two recorded known findings (log/param checksum collision).', '5 C11'),
+    'C14': ('proof', 'EEPROM, 1-wire, lighthouse (memory and YAML), parameter YAML, deck-info, loco anchor, Poly4D and LED-timing images: layouts, '
+            'round trips at binary32, valid iff checksum/CRC, single-byte EEPROM corruption detected.',
+            'crc32 uninterpreted symbolically (real natively); PyYAML round trip assumed; string lengths / element orders enumerated; firmware '
+            'layouts transcribed in contracts/C14.py; three recorded known findings.', '5 C14'),
+    'C17': ('proof', 'MotionCommander / PositionHlCommander primitives in real arithmetic: velocity*duration = displacement, landing always ends '
+            'with thread stop, stop set-point and priority release (or hl.land, sleep, hl.stop), dead-reckoned position, _SetPointThread.run on '
+            'scripted events.',
+            'float mode R (machine arithmetic treated as mathematical); sequential thread model (join returns after run); sessions of <= 2 '
+            'primitives; one recorded known finding (PositionHlCommander.land below the landing height).', '5 C17'),
+    'C19': ('proof', 'Swarm sequential/parallel/parallel_safe/open_links/close_links for swarm sizes 0..3: every schedule of atomic thread '
+            'bodies between start() and join(), every failing subset; once-per-member, argument wiring, raise-iff, close-all-on-failure.',
+            'Thread bodies are atomic (no pre-emption inside an action); swarm sizes <= 3; list.append atomic.', '5 C19'),
+})
+
 NOT_APPLICABLE = {
     'C09': 'convergence/accuracy of an external iterative least-squares solver on vectorised floating-point numpy code; no '
            'contract within reach of the available verifiers expresses or decides it (DESIGN.md section 5 C09)',
